@@ -12,7 +12,7 @@ J   Judge_Ansi            long random grammar streams and arbitrary byte strings
 Named deviations of the specification (StAsCsi, SkipEmptyParam) are predicted by TLC as alternatives; a case the real
 code only matches under a deviation is reported as a violation carrying that deviation's kf signature.
 """
-import json, os, re, subprocess
+import json, os, re, subprocess, time
 import vlib
 from vlib import Infra, replay_cases, judge, write_ndjson, read_ndjson, log
 
@@ -357,13 +357,18 @@ def run(ctx):
     q = ctx.quick
     # ---------------------------------------------------------------- (1) model checking of the design
     for cfg in (["MC_Ansi_quick.cfg", "MC_AnsiGrammar_quick.cfg"] if q else ["MC_Ansi.cfg", "MC_AnsiGrammar.cfg"]):
-        mc = ctx.mc("MC_Ansi", cfg, timeout=2400, coverage=True, workers=WORKERS, label=cfg[:-4])
-        want = ["BNext"] if "Grammar" not in cfg else ["GText", "GCtl", "GStruck", "GSt", "GSgrOpen", "GGroup", "GEmpty",
-                                                      "GSgrClose", "GNewLine"]
-        cov = action_counts(mc)
-        dead = [a for a in want if cov.get(a, 0) == 0]
-        if dead:
-            raise Infra("vacuous model (%s): actions never taken: %s (coverage %s)" % (cfg, dead, cov))
+        grammar = "Grammar" in cfg
+        mc = ctx.mc("MC_Ansi", cfg, timeout=2400, coverage=grammar, workers=WORKERS, label=cfg[:-4])
+        if grammar:
+            cov = action_counts(mc)
+            ctx.cov["action_coverage"][cfg[:-4]] = cov
+            dead = [a for a in ["GText", "GCtl", "GStruck", "GSt", "GSgrOpen", "GGroup", "GEmpty", "GSgrClose", "GNewLine"]
+                    if cov.get(a, 0) == 0]
+            if dead:
+                raise Infra("vacuous model (%s): actions never taken: %s (coverage %s)" % (cfg, dead, cov))
+        elif mc.distinct < 1000:          # the only action appends one symbol; every state but the root is its result
+            raise Infra("vacuous model (%s): %d states" % (cfg, mc.distinct))
+        log("MC %s: %d states, %.0fs" % (cfg, mc.distinct, mc.wall))
 
     h = ctx.build_harness("src", FILES)
     # the abstraction table of the harness goes into the evidence and to the judge
@@ -399,7 +404,8 @@ def run(ctx):
             res = replay_split(ctx, h, cases, label, st)
             classify(st, cases)
             total += len(cases)
-            if len(res) <= 60000 and not sharded:
+            log("E %s: %d cases (TLC %.0fs), elapsed %.0fs" % (label, len(cases), gen.wall, time.time() - ctx.t0))
+            if len(res) <= 45000 and not sharded and pres != "01":
                 judged += res
             if alpha == "full" and pres != "1":
                 e2e_pool += [c for c in cases if len(c["lines"]) == 1 and len(c["lines"][0]) >= 2][::ctx.pick(40, 25)]
@@ -413,7 +419,7 @@ def run(ctx):
         exhaustive_counts["%s<=%d prev=%s" % (alpha, maxlen, pres)] = total
 
     # ---------------------------------------------------------------- (3) E: grammar streams (TLC -simulate)
-    num = ctx.pick(50, 200)                # traces per worker; every successor of the last step is exported
+    num = ctx.pick(30, 150)                # traces per worker; every successor of the last step is exported
     gw = 8
     gcases = []
     for depth in ((9,) if q else (7, 12)):
@@ -428,10 +434,11 @@ def run(ctx):
         raise Infra("grammar generator left the well-formed domain: %s" % json.dumps(bad_wf[0]["lines"]))
     gres = replay_split(ctx, h, gcases, "grammar", st)
     classify(st, gcases)
-    judged += gres
+    judged += gres[::2]
     e2e_pool += [c for c in gcases if len(c["lines"]) == 1]
     c = next((c for c in gcases if len(c["lines"]) >= 2 and any(a[1]["fg"] for a in c["exp"][-1]["attrs"])), gcases[0])
     ctx.sample({"lines": [show(l) for l in c["lines"]], "predicted": c["exp"]})
+    log("E grammar: %d cases, elapsed %.0fs" % (len(gcases), time.time() - ctx.t0))
     need = {"fg", "bg", "at", "url", "lbg"} - set(st.carry)
     if need:
         raise Infra("no generated case carried over a state with %s set" % sorted(need))
@@ -444,16 +451,17 @@ def run(ctx):
     judge_records(ctx, h, judged, "replayed", st, recs=judged)
     del judged
     rng = ctx.rng
-    nj = ctx.pick(2500, 30000)
+    nj = ctx.pick(1200, 20000)
     inputs = []
     for i in range(nj):
         exotic = "none" if i % 5 else rng.choice(["st", "empty"])
-        inputs.append(gen_stream(rng, rng.choice([1, 2, 3, 4]), rng.choice([6, 12, 25, 40]), exotic))
+        inputs.append(gen_stream(rng, rng.choice([1, 2, 3]), rng.choice([6, 12, 25, 40]), exotic))
     recs = judge_records(ctx, h, inputs, "random-grammar", st)
     ctx.sample({"random_grammar_line": show(inputs[0]["lines"][0]), "real": recs[0]["got"][0]})
-    inputs = [gen_arbitrary(rng, rng.choice([8, 16, 40])) for _ in range(nj)]
+    inputs = [gen_arbitrary(rng, rng.choice([8, 16, 40])) for _ in range(2 * nj)]
     judge_records(ctx, h, inputs, "random-bytes", st)
 
+    log("J done, elapsed %.0fs" % (time.time() - ctx.t0))
     # ---------------------------------------------------------------- (5) end to end: what the binary prints
     ne = end_to_end(ctx, e2e_pool, st, [], "binary")
     ne += end_to_end(ctx, e2e_pool[::3], st, ["+s"], "binary-streaming")
@@ -468,7 +476,7 @@ def run(ctx):
     ctx.cov["carried_state_components_seen"] = st.carry
     ctx.cov["deviation_hits"] = st.dev_hits
     ctx.cov["binary_lines_compared"] = ne
-    ctx.cov["judged_random_records"] = 2 * nj
+    ctx.cov["judged_random_records"] = 3 * nj
     ctx.assumptions += [
         "characters are symbols of a 40-symbol vocabulary (one non-ASCII character, e-acute); invalid UTF-8 is not modelled",
         "colours are specified only for well-formed streams: ';'-separated SGR parameters (empty = 0) with complete "
